@@ -73,6 +73,7 @@ type Exec struct {
 	idxElemSort map[int]map[string]bool
 	canonStrs []canonStr // strings used inside map keys, with their canonical representatives
 	fnConsts  []fnConst  // closures that were stored as terms
+	witnessArrs map[int]map[int]bool // witness constant -> array terms its existential reads
 }
 
 type InputSym struct {
@@ -165,6 +166,23 @@ func (x *Exec) assertsBefore(fr *Frame, st *State, in *ssa.Call) {
 			for _, cl := range fr.contract.Clauses {
 				if (cl.Kind == "assert" || cl.Kind == "bind") && cl.Name == o.Name() {
 					name = o.Name()
+				}
+			}
+		}
+	}
+	if name == "" {
+		// a call through a function-typed field (p.ParseOne(...)): addressed by the field's name
+		switch v := in.Call.Value.(type) {
+		case *ssa.Field:
+			if st, ok := v.X.Type().Underlying().(*types.Struct); ok {
+				name = st.Field(v.Field).Name()
+			}
+		case *ssa.UnOp:
+			if fa, ok := v.X.(*ssa.FieldAddr); ok {
+				if pt, ok := fa.X.Type().Underlying().(*types.Pointer); ok {
+					if st, ok := pt.Elem().Underlying().(*types.Struct); ok {
+						name = st.Field(fa.Field).Name()
+					}
 				}
 			}
 		}
